@@ -26,14 +26,14 @@ func main() { vh.Main(map[string]vh.Suite{"C21": {Corr: "Corr.C21Corr", Run: run
 
 const limit = 262144 // maxHandshakeCertificateMsg (property: "up to the handshake size limit")
 
-type entry struct{ n, a, b int }
+type entry struct{ N, A, B int }
 
 func build(es []entry) []byte {
 	var body []byte
 	for _, e := range es {
-		body = append(body, byte(e.n>>16), byte(e.n>>8), byte(e.n))
-		for j := 0; j < e.n; j++ {
-			body = append(body, byte(e.a+j*e.b))
+		body = append(body, byte(e.N>>16), byte(e.N>>8), byte(e.N))
+		for j := 0; j < e.N; j++ {
+			body = append(body, byte(e.A+j*e.B))
 		}
 		body = append(body, 0, 0)
 	}
@@ -44,7 +44,7 @@ func build(es []entry) []byte {
 func coqEntries(es []entry) string {
 	it := make([]string, len(es))
 	for i, e := range es {
-		it[i] = fmt.Sprintf("(%d, %d, %d)", e.n, e.a, e.b)
+		it[i] = fmt.Sprintf("(%d, %d, %d)", e.N, e.A, e.B)
 	}
 	return vh.List(it)
 }
@@ -269,7 +269,7 @@ func runScenario(c *vh.Ctx, s scenario) {
 	// ---- oracle from the property text ----
 	advertised := contains(s.adv, s.alg) && s.alg >= 1 && s.alg <= 3
 	switch {
-	case accepted && !bytes.Equal(res.Msg, append(append([]byte{}, header...), msg...)):
+	case s.valid && accepted && !bytes.Equal(res.Msg, append(append([]byte{}, header...), msg...)):
 		c.Fail("accepted-other-message/"+s.key, "the client accepted a certificate message other than the one the server compressed", in, vh.Hex(res.Msg[:min(len(res.Msg), 64)]), "the compressed message or an error")
 	case s.valid && advertised && s.declared == len(full) && len(s.extra) == 0 && len(full) <= limit && !accepted:
 		c.Fail("valid-stream-rejected/"+s.key, "a valid compressed encoding of the certificate message is not recovered", in, fmt.Sprint(res.Err, " alert=", res.Alert), "the certificate message")
@@ -420,8 +420,8 @@ func run(c *vh.Ctx) {
 			sz := sizes[(round+ei)%len(sizes)]
 			if c.Tier != "quick" && (round+ei)%9 == 0 {
 				sz = []int{33000, 70000, 140000, 250000}[(round/2+ei)%4]
-			} else if round == 0 && ei%5 == 0 {
-				sz = 36000 + 1000*ei // a few large ones even in the quick tier
+			} else if round == 0 && (ei == 0 || ei == 10) {
+				sz = 34000 + 500*ei // a few large ones even in the quick tier (zlib, zstd)
 			}
 			es := genEntries(r, sz)
 			msg := build(es)
